@@ -9,6 +9,8 @@ import OpcuaModel.Gen.Types
     dec <fuel> <limit|-> <type> <hex>    → ok <consumed> <value> | fail <kind>
     wt <fuel> <type> <value>             → true | false      (domain of the round-trip theorem)
     norm <fuel> <type> <value>           → <value>           (normal form of the round-trip theorem)
+    allocsite <fuel> <limit> <type> <hex> → slice | vararray | dims | split | mixed | none
+                                           (the allocation site whose requests alone exceed the budget)
     newvar <base> <depth> <value>        → ok <variant> | fail <kind>   (ua.NewVariant on a value of Go type slice^depth(T_base))
 -/
 namespace Opcua.CodecDrv
@@ -39,6 +41,23 @@ def handle : List String → String
         | .fail e => "fail " ++ failName e
       | none => "bad-hex"
     | _, _ => "bad-op"
+  | "allocsite" :: fuel :: limit :: rest =>
+    match fuel.toNat?, limit.toNat?, pTy named rest with
+    | some f, some l, some (ty, [hex]) =>
+      match fromHex hex with
+      | some b =>
+        let isAlloc (exempt : List Site) : Bool :=
+          match decode { limit := some l, exts := Gen.extObjTypes, exempt := exempt } f ty ⟨b, 0⟩ with
+          | .fail .alloc => true
+          | _ => false
+        if !isAlloc [] then "none"
+        else if isAlloc [.varArray, .dims, .split] then "slice"
+        else if isAlloc [.slice, .dims, .split] then "vararray"
+        else if isAlloc [.slice, .varArray, .split] then "dims"
+        else if isAlloc [.slice, .varArray, .dims] then "split"
+        else "mixed"
+      | none => "bad-hex"
+    | _, _, _ => "bad-op"
   | "wt" :: fuel :: rest =>
     match fuel.toNat?, pTy named rest with
     | some f, some (ty, rest) =>
